@@ -177,11 +177,25 @@ def prov_str(p):
 class AbsStr(AbstractValue):
     """A string known only by provenance. `facts` may carry domain information."""
 
-    def __init__(self, prov=None, label='s', nonempty=None):
+    def __init__(self, prov=None, label='s', nonempty=None, maybe_none=False):
         self.uid = next(_uid)
         self.prov = prov if prov is not None else ('src', self.uid, label)
         self.label = label
         self.nonempty = nonempty
+        self.maybe_none = maybe_none    # an optional regex group: the value is None when the group took no part
+
+    def is_none(self, interp):
+        """Decide (fork) whether this optional-group value is None on the current path."""
+        if not self.maybe_none:
+            return False
+        if interp.oracle.memo.get(('cond', ('nonempty', self.prov))) is True:
+            return False
+        return interp.oracle.decide(('cond', ('isnone', self.prov)), ('isnone', self.prov))
+
+    def _deref(self, interp, what):
+        if self.is_none(interp):
+            from .interp import Raised, ExcVal
+            raise Raised(ExcVal('AttributeError' if what == 'attr' else 'TypeError', ('NoneType', what)))
 
     def __repr__(self):
         return 'AbsStr%s' % prov_str(self.prov)
@@ -190,6 +204,7 @@ class AbsStr(AbstractValue):
         return AbsStr(prov=what + (self.prov,))
 
     def abs_method(self, interp, name, args, kwargs):
+        self._deref(interp, 'attr')
         a = tuple(_freeze(x) for x in args) + tuple((k, _freeze(v)) for k, v in sorted(kwargs.items()))
         if name in ('startswith', 'endswith', 'isspace', 'isdigit', 'isupper', 'isalpha', 'isalnum'):
             return Cond(('strtest', name, a, self.prov))
@@ -208,6 +223,7 @@ class AbsStr(AbstractValue):
         return _AbsBound(self, name)
 
     def abs_getitem(self, interp, idx):
+        self._deref(interp, 'subscript')
         return AbsStr(prov=('idx', _freeze(idx), self.prov))
 
     def abs_compare(self, interp, op, other, reflected):
@@ -231,13 +247,17 @@ class AbsStr(AbstractValue):
     def abs_truth(self, interp):
         if self.nonempty:
             return True
+        if self.maybe_none and interp.oracle.memo.get(('cond', ('isnone', self.prov))) is True:
+            return False
         return interp.oracle.decide(('cond', ('nonempty', self.prov)), ('nonempty', self.prov))
 
     def abs_len(self, interp):
+        self._deref(interp, 'len')
         return Unknown('len')
 
     def abs_binop(self, interp, op, other, reflected):
         if op is ast.Add:
+            self._deref(interp, '+')
             if is_abstract(other) and not isinstance(other, AbsStr) and hasattr(other, 'abs_binop') and not reflected:
                 return NotImplemented     # let template-domain values build a skeleton around this string
             o = _freeze(other)
@@ -249,6 +269,7 @@ class AbsStr(AbstractValue):
         return NotImplemented
 
     def abs_iter(self, interp):
+        self._deref(interp, 'iter')
         n = 0
         while n < interp.loop_bound and interp.decide(('iter', self.uid, n), fresh=True):
             yield AbsStr(prov=('char', n, self.prov))
@@ -256,7 +277,7 @@ class AbsStr(AbstractValue):
 
     def abs_is(self, interp, other):
         if other is None:
-            return False
+            return self.is_none(interp)
         return self is other
 
     def abs_isinstance(self, interp, c):
@@ -421,7 +442,12 @@ class AbsMatch(AbstractValue):
         return self is other
 
     def group(self, i):
-        return AbsStr(prov=('group', i, self.key))
+        from . import rx as _rx
+        try:
+            opt = isinstance(i, int) and i in _rx.optional_groups(self.rx.pattern, self.rx.flags if hasattr(self.rx, 'flags') else 0)
+        except Exception:
+            opt = False
+        return AbsStr(prov=('group', i, self.key), maybe_none=opt)
 
     def abs_method(self, interp, name, args, kwargs):
         if not self.matched(interp):
